@@ -18,6 +18,8 @@ import (
 	gogoproto "github.com/cosmos/gogoproto/proto"
 	transfertypes "github.com/cosmos/ibc-go/v8/modules/apps/transfer/types"
 	channeltypes "github.com/cosmos/ibc-go/v8/modules/core/04-channel/types"
+	capabilitytypes "github.com/cosmos/ibc-go/modules/capability/types"
+	clienttypes "github.com/cosmos/ibc-go/v8/modules/core/02-client/types"
 	porttypes "github.com/cosmos/ibc-go/v8/modules/core/05-port/types"
 	ibcexported "github.com/cosmos/ibc-go/v8/modules/core/exported"
 
@@ -224,6 +226,8 @@ type ics20 struct {
 	creditTo  sdk.AccAddress
 	sawPacket channeltypes.Packet
 	sawRelayr sdk.AccAddress
+	cbs       []cbRec
+	cbErr     error
 }
 
 var transferModuleAddr = sdk.AccAddress([]byte{12, 12, 12, 12, 12, 12, 12, 12, 12, 12, 12, 12, 12, 12, 12, 12, 12, 12, 12, 12})
@@ -312,6 +316,7 @@ type World struct {
 	Hyp  *hypModel
 	Int  *internalModel
 	App  *ics20
+	ICS4 *ics4rec
 	MW   entrypoint.IBCMiddleware
 	Fee  *actionctrl.FeeController
 	swap *swapStub
@@ -369,7 +374,8 @@ func newWorldCustom(faults bool, extra orbitertypes.ActionController) *World {
 	ia, err := adapterctrl.NewIBCAdapter(cdc, nopLogger{})
 	must(err)
 	must(w.K.SetAdapterControllers(ia))
-	w.MW = entrypoint.NewIBCMiddleware(w.App, ics4{}, w.K.Adapter())
+	w.ICS4 = &ics4rec{}
+	w.MW = entrypoint.NewIBCMiddleware(w.App, w.ICS4, w.K.Adapter())
 	return w
 }
 
@@ -411,4 +417,70 @@ func orbiterData(amount math.Int, p *core.Payload) transfertypes.FungibleTokenPa
 		Receiver: core.ModuleAddress.String(),
 		Memo:     verif.EncodeMemo(&core.PayloadWrapper{Orbiter: p}, 0),
 	}
+}
+
+// ---- pass-through callbacks of the wrapped application and of the ICS-4 wrapper (recorded; results are drawn) ------------
+
+type cbRec struct {
+	method   string
+	packet   channeltypes.Packet
+	ack      []byte
+	relayer  sdk.AccAddress
+	port, ch string
+	data     []byte
+	ts       uint64
+}
+
+func (a *ics20) OnAcknowledgementPacket(_ sdk.Context, p channeltypes.Packet, ack []byte, relayer sdk.AccAddress) error {
+	a.cbs = append(a.cbs, cbRec{method: "OnAcknowledgementPacket", packet: p, ack: ack, relayer: relayer})
+	if verif.Bool("app-callback-fails") {
+		a.cbErr = errors.New("application refused")
+		return a.cbErr
+	}
+	return nil
+}
+
+func (a *ics20) OnTimeoutPacket(_ sdk.Context, p channeltypes.Packet, relayer sdk.AccAddress) error {
+	a.cbs = append(a.cbs, cbRec{method: "OnTimeoutPacket", packet: p, relayer: relayer})
+	if verif.Bool("app-callback-fails") {
+		a.cbErr = errors.New("application refused")
+		return a.cbErr
+	}
+	return nil
+}
+
+func (a *ics20) OnChanCloseInit(_ sdk.Context, port, ch string) error {
+	a.cbs = append(a.cbs, cbRec{method: "OnChanCloseInit", port: port, ch: ch})
+	if verif.Bool("app-callback-fails") {
+		a.cbErr = errors.New("application refused")
+		return a.cbErr
+	}
+	return nil
+}
+
+func (a *ics20) OnChanOpenConfirm(_ sdk.Context, port, ch string) error {
+	a.cbs = append(a.cbs, cbRec{method: "OnChanOpenConfirm", port: port, ch: ch})
+	return nil
+}
+
+type ics4rec struct {
+	porttypes.ICS4Wrapper
+	cbs    []cbRec
+	seq    uint64
+	sndErr error
+}
+
+func (i *ics4rec) SendPacket(_ sdk.Context, _ *capabilitytypes.Capability, port, ch string, _ clienttypes.Height, ts uint64, data []byte) (uint64, error) {
+	i.cbs = append(i.cbs, cbRec{method: "SendPacket", port: port, ch: ch, data: data, ts: ts})
+	if verif.Bool("send-fails") {
+		i.sndErr = errors.New("channel closed")
+		return 0, i.sndErr
+	}
+	i.seq = verif.Uint64("sequence")
+	return i.seq, nil
+}
+
+func (i *ics4rec) GetAppVersion(_ sdk.Context, port, ch string) (string, bool) {
+	i.cbs = append(i.cbs, cbRec{method: "GetAppVersion", port: port, ch: ch})
+	return "ics20-1", true
 }
